@@ -111,6 +111,9 @@ def mat_attr(it, m: Mat, name):
     if name == "astype":
         return PyFunc(lambda it_, dt, **k: m, "spmatrix.astype")
     if name == "toarray":
+        if isinstance(m.cols, int) and m.cols == 1:
+            e1 = entry_fn(it, m)
+            return PyFunc(lambda it_: Arr(Arr.new(Vec(m.rows, lambda r: ops._real(e1(r, 0)), "real")).cell, 0, m.rows, col2d=True), "spmatrix.toarray")
         return PyFunc(lambda it_: m, "spmatrix.toarray")
     if name == "data" and m.data_arr is not None:
         return m.data_arr
@@ -177,6 +180,15 @@ def mat_binop(it, op, a, b, frame, node):
 
 
 def mat_getitem(it, m, idx):
+    """column extraction M[:, i]"""
+    if isinstance(idx, tuple) and len(idx) == 2 and isinstance(idx[0], slice) and idx[0] == slice(None, None, None) and not isinstance(idx[1], slice):
+        e = entry_fn(it, m)
+        i = idx[1]
+        if getattr(m, "dense", False):
+            return Arr.new(Vec(m.rows, lambda r: ops._real(e(r, i)), "real"))  # dense 2-D array: a 1-D column
+        col = Mat(m.rows, 1, lambda r, c: e(r, i), name=it.path.fresh_name("col"))
+        col.column_of = (m, i)
+        return col
     raise Unsupported("matrix subscript")
 
 
